@@ -320,6 +320,28 @@ fn eval(s: &str, st: &mut Stats, enumerated: bool) {
     }
 }
 
+/// `s` evaluated after the calls `history` were made on the same thread: the result must not depend on them
+fn eval_after(history: &[&str], s: &str, st: &mut Stats) {
+    st.eval();
+    st.count("inputs_after_history");
+    let r = crate::guarded(|| {
+        for h in history {
+            let _ = anstyle_git::parse(h);
+        }
+        check(s)
+    });
+    let mut case = Case::new("c11").b(s.as_bytes());
+    for h in history {
+        case = case.b(h.as_bytes());
+    }
+    let hist = || history.iter().map(|h| format!("{:?}", h)).collect::<Vec<_>>().join(", ");
+    match r {
+        Ok(Ok(kind)) => st.count(&format!("inputs_{kind}")),
+        Ok(Err((sig, msg))) => st.viol(&sig, format!("after parse of {}: {}", hist(), msg), case),
+        Err(p) => st.viol("c11:panic", format!("after parse of {}: parse({:?}) panicked: {p}", hist(), s), case),
+    }
+}
+
 const HEX_ALPHA: [&str; 10] = ["0", "9", "a", "F", "g", "+", "-", " ", "\u{e9}", "\u{ff10}"];
 const EDIT_CHARS: [&str; 12] = ["a", "Z", "0", "-", "#", "+", " ", "\u{e9}", "\u{212a}", "\u{130}", "\u{ff10}", "\u{1f600}"];
 
@@ -337,6 +359,25 @@ pub fn run(cfg: &Cfg) -> Stats {
             k += 1;
             k % n == shard
         };
+        // near-duplicates of a description on one thread, in several orders (a result must not depend on earlier calls)
+        {
+            let mut bases: Vec<String> = vocab.iter().filter(|w| w.is_ascii() && !w.is_empty()).cloned().collect();
+            for d in ["bold red", "red blue", "#ff0000 ul", "no-bold", "nobold dim", "brightred reverse", "7 8", "normal default"] {
+                bases.push(d.to_string());
+            }
+            for base in &bases {
+                if !mine() {
+                    continue;
+                }
+                for d in crate::c12::near_duplicates(base) {
+                    eval_after(&[], base, &mut st);
+                    eval_after(&[base], &d, &mut st);
+                    eval_after(&[base, &d], base, &mut st);
+                    eval_after(&[&d, &d], base, &mut st);
+                    eval_after(&[base, &d, base], &d, &mut st);
+                }
+            }
+        }
         let seps = [" ", "\t", "\n", "\u{a0} "];
         let cases: [fn(&str) -> String; 3] = [|w| w.to_string(), |w| w.to_ascii_uppercase(), |w| {
             let mut s = String::new();
@@ -590,7 +631,13 @@ pub fn run(cfg: &Cfg) -> Stats {
 pub fn replay(case: &Case) -> Result<String, Viol> {
     let b = case.bytes.first().cloned().unwrap_or_default();
     let s = String::from_utf8_lossy(&b).into_owned();
-    match crate::guarded(|| check(&s)) {
+    let history: Vec<String> = case.bytes.iter().skip(1).map(|h| String::from_utf8_lossy(h).into_owned()).collect();
+    match crate::guarded(|| {
+        for h in &history {
+            let _ = anstyle_git::parse(h);
+        }
+        check(&s)
+    }) {
         Ok(Ok(k)) => Ok(format!("{k}: parser and grammar agree")),
         Ok(Err((sig, msg))) => Err(Viol { case: case.clone(), msg, sig }),
         Err(p) => Err(Viol { case: case.clone(), msg: format!("parse({:?}) panicked: {p}", s), sig: "c11:panic".into() }),
